@@ -264,6 +264,20 @@ Definition eval_toerror (nout args success etag real : sexp) : verdict :=
   | _, _, _, _ => bad_line
   end.
 
+(* f's parameters carry names (symbols): the names the generated function chooses for itself are
+   computed and resolved in the text model *)
+Definition get_syms (e : sexp) : option (list string) :=
+  match e with L l => map_opt (fun x => match x with Sym s => Some s | _ => None end) l | _ => None end.
+
+Definition eval_toerrorp (nout names args success etag real : sexp) : verdict :=
+  match get_syms names with
+  | Some ns =>
+      let v := eval_toerror nout args success etag real in
+      {| v_known := v_known v; v_model_ok := v_model_ok v; v_spec_ok := v_spec_ok v; v_guard := v_guard v;
+         v_model := v_model v; v_tag := v_tag v ++ "+named-params" |}
+  | None => bad_line
+  end.
+
 (* ---- zero literals (structural: the literal text found in derived.gen.go) ---- *)
 Definition shape_of (e : sexp) : option shape :=
   match e with
@@ -395,6 +409,8 @@ Definition eval16 (e : sexp) : verdict :=
           if String.eqb k "composez" then eval_composez n err ferr conv real else
           if String.eqb k "toerror" then eval_toerror n err ferr conv real else
           bad_line
+      | [n; names; args; sc; et; real] =>
+          if String.eqb k "toerrorp" then eval_toerrorp n names args sc et real else bad_line
       | [a; b; real] =>
           if String.eqb k "traverse" then eval_traverse a b real else
           if String.eqb k "zero" then eval_zero a b real else
